@@ -345,7 +345,8 @@ theorem digitsPhase_simple (e : Env) (hs : Simple e.c) (isNeg : Bool) (b : Bytes
     (match digitsPhase e isNeg b start with | .ok r => r | .error r => r) =
       ofM (LexVerif.Proof.ParseInt.body e.c.feats e.t e.radix e.partial_ e.noMulti isNeg b.asSlice b.index b.slc.length) := by
   have hlen : b.index + b.asSlice.length = b.slc.length := by simp only [Bytes.asSlice, List.length_drop]; omega
-  simp only [digitsPhase, hs.hd, Bool.false_and, Bool.false_eq_true, if_false, LexVerif.Proof.ParseInt.body]
+  simp only [digitsPhase, digitsBody, negBlock, mainBlock, hs.hd, Bool.false_and, Bool.false_eq_true, if_false,
+    LexVerif.Proof.ParseInt.body]
   have fin : ∀ (x : Nat) (st : ParseInt.Flow (Nat × Nat)), (∀ v c, st = .ok (v, c) → c = b.slc.length) →
       (match (match conv { b with ic := x } st with
               | .error r => .error r
